@@ -1,10 +1,237 @@
-"""Mutant self-test of the rules (filled in progressively)."""
+"""Self-test of the checker: mutants must be reported, behaviour-preserving
+variants must not.
+
+A mutant is a small edit of one source file of /repo, applied to an in-memory
+overlay (nothing is written to /repo).  The mutated module must still parse.
+For every mutant the property's rules are evaluated on the overlay; the
+mutant is *killed* when a violation that is not present on the unmodified
+tree is reported by (one of) the expected rule(s).  Seeded changes stored
+under /verif/seeded/<id>/patch.diff are used as mutants too.
+"""
+import ast
+import importlib
+import json
+import multiprocessing
+import os
+import re
+import sys
+import time
+
+from mstatic.core import AnalysisError
+
+VERIF = os.path.dirname(os.path.dirname(os.path.abspath(__file__)))
+
+
+def _violations(prop, repo, overlay):
+    from mstatic import report
+    ctx = report.Ctx(prop, 'quick', repo, overlay)
+    mod = importlib.import_module('mstatic.rules.%s' % prop.lower())
+    try:
+        mod.run(ctx)
+        for r in ctx.rules:
+            r.finish()
+    except AnalysisError as e:
+        # a lost anchor / floor is also a detection (exit 2 at run time)
+        return {('ANALYSIS-ERROR', str(e)[:120])}
+    return {(v.rule, v.construct) for r in ctx.rules for v in r.violations}
+
+
+def apply_edit(src, old, new, count=1):
+    if src.count(old) != count:
+        return None
+    return src.replace(old, new)
+
+
+def apply_unified_diff(files, diff_text):
+    """Apply a unified diff to {path: source}. Returns {path: new source}
+    for the touched files or None when a hunk does not apply."""
+    out = {}
+    cur = None
+    hunks = []
+    for line in diff_text.splitlines():
+        if line.startswith('+++ '):
+            p = line[4:].strip()
+            if p.startswith('b/'):
+                p = p[2:]
+            cur = p
+            hunks = []
+            out[cur] = hunks
+        elif line.startswith('@@') and cur is not None:
+            m = re.match(r'@@ -(\d+)(?:,(\d+))? \+(\d+)(?:,(\d+))? @@', line)
+            hunks.append({'start': int(m.group(1)), 'lines': []})
+        elif cur is not None and hunks and (
+                line.startswith((' ', '+', '-')) or line == ''):
+            if line.startswith('\\'):
+                continue
+            hunks[-1]['lines'].append(line if line else ' ')
+    res = {}
+    for path, hs in out.items():
+        if path == '/dev/null' or not path.endswith('.py'):
+            continue
+        src = files(path)
+        if src is None:
+            return None
+        lines = src.split('\n')
+        offset = 0
+        for h in hs:
+            old = [x[1:] for x in h['lines'] if x[0] in ' -']
+            new = [x[1:] for x in h['lines'] if x[0] in ' +']
+            pos = h['start'] - 1 + offset
+            found = None
+            for d in range(0, 200):
+                for cand in (pos + d, pos - d):
+                    if 0 <= cand <= len(lines) - len(old) and \
+                            lines[cand:cand + len(old)] == old:
+                        found = cand
+                        break
+                if found is not None:
+                    break
+            if found is None:
+                return None
+            lines[found:found + len(old)] = new
+            offset += len(new) - len(old)
+        res[path] = '\n'.join(lines)
+    return res
+
+
+def _read(repo, path):
+    p = os.path.join(repo, path)
+    if not os.path.exists(p):
+        return None
+    with open(p, encoding='utf-8') as fh:
+        return fh.read()
+
+
+def _run_one(job):
+    kind, mid, prop, repo, overlay, expect, base = job
+    t0 = time.time()
+    try:
+        for path, src in overlay.items():
+            ast.parse(src, path)
+    except SyntaxError as e:
+        return (kind, mid, prop, 'does-not-parse', str(e), 0.0)
+    try:
+        got = _violations(prop, repo, overlay)
+    except Exception as e:
+        return (kind, mid, prop, 'checker-crashed', repr(e)[:200],
+                time.time() - t0)
+    new = got - base
+    if kind == 'refactor':
+        return (kind, mid, prop, 'flagged' if new else 'silent',
+                sorted(new)[:3], time.time() - t0)
+    hit = [v for v in new if not expect or
+           any(v[0] == e or v[0] == 'ANALYSIS-ERROR' for e in expect)]
+    return (kind, mid, prop, 'killed' if hit else
+            ('killed-by-other-rule' if new else 'survived'),
+            sorted(new)[:3], time.time() - t0)
+
+
+def collect_jobs(props, repo):
+    from mstatic import mutants as M
+    jobs = []
+    skipped = []
+    base = {}
+    for p in props:
+        base[p] = _violations(p, repo, None)
+    for m in M.MUTANTS + M.REFACTORS:
+        if m['prop'] not in props:
+            continue
+        src = _read(repo, m['path'])
+        new = apply_edit(src, m['old'], m['new'], m.get('count', 1)) \
+            if src is not None else None
+        if new is None:
+            skipped.append(m['id'])
+            continue
+        kind = 'refactor' if m in M.REFACTORS else 'mutant'
+        jobs.append((kind, m['id'], m['prop'], repo, {m['path']: new},
+                     m.get('rules', []), base[m['prop']]))
+    sdir = os.path.join(VERIF, 'seeded')
+    if os.path.isdir(sdir):
+        for sid in sorted(os.listdir(sdir)):
+            pf = os.path.join(sdir, sid, 'patch.diff')
+            mf = os.path.join(sdir, sid, 'meta.json')
+            if not os.path.exists(pf):
+                continue
+            caught_by = []
+            if os.path.exists(mf):
+                try:
+                    caught_by = json.load(open(mf)).get('caught_by', [])
+                except Exception:
+                    caught_by = []
+            targets = sorted({c.split('.')[0] for c in caught_by}) or \
+                [sid.split('-')[0]]
+            with open(pf) as fh:
+                diff = fh.read()
+            ov = apply_unified_diff(lambda p: _read(repo, p), diff)
+            for p in targets:
+                if p not in props:
+                    continue
+                if ov is None:
+                    skipped.append('seed:' + sid)
+                    continue
+                rules = [c.split('.')[1] for c in caught_by
+                         if c.startswith(p + '.')]
+                jobs.append(('mutant', 'seed:' + sid, p, repo, ov, rules,
+                             base[p]))
+    return jobs, skipped
+
+
+def run_jobs(jobs):
+    n = min(16, max(1, len(jobs)))
+    if not jobs:
+        return []
+    with multiprocessing.Pool(n) as pool:
+        return pool.map(_run_one, jobs, chunksize=1)
 
 
 def for_property(prop, repo):
-    return {}
+    t0 = time.time()
+    jobs, skipped = collect_jobs([prop], repo)
+    res = run_jobs(jobs)
+    muts = [r for r in res if r[0] == 'mutant']
+    refs = [r for r in res if r[0] == 'refactor']
+    survived = [r[1] for r in muts if r[3] not in ('killed',)]
+    flagged = [r[1] for r in refs if r[3] != 'silent']
+    return {
+        'mutants_total': len(muts),
+        'mutants_killed': len([r for r in muts if r[3] == 'killed']),
+        'mutants_survived': survived,
+        'mutants_not_applicable': skipped,
+        'refactor_variants': len(refs),
+        'refactors_flagged': flagged,
+        'selftest_samples': [{'id': r[1], 'verdict': r[3],
+                              'reported': [list(x) for x in r[4]]
+                              if isinstance(r[4], list) else r[4]}
+                             for r in res[:8]],
+        'selftest_wall_s': round(time.time() - t0, 2),
+    }
 
 
 def main(argv, repo):
-    print('selftest: not built yet')
-    return 0
+    from mstatic.cli import PROPS
+    props = [a.upper() for a in argv] or PROPS
+    t0 = time.time()
+    jobs, skipped = collect_jobs(props, repo)
+    res = run_jobs(jobs)
+    bad = 0
+    for r in sorted(res, key=lambda x: (x[2], x[0], x[1])):
+        kind, mid, prop, verdict, info, wall = r
+        okv = verdict in ('killed', 'silent')
+        if not okv:
+            bad += 1
+        print('%-8s %-4s %-55s %-22s %s' % (kind, prop, mid, verdict,
+                                            '' if okv else info))
+    for s in skipped:
+        print('skipped  (edit does not apply to the current tree) %s' % s)
+    muts = [r for r in res if r[0] == 'mutant']
+    refs = [r for r in res if r[0] == 'refactor']
+    print('selftest: %d mutants (%d killed), %d refactor variants (%d '
+          'silent), %d skipped, %.1fs'
+          % (len(muts), len([r for r in muts if r[3] == 'killed']),
+             len(refs), len([r for r in refs if r[3] == 'silent']),
+             len(skipped), time.time() - t0))
+    return 0 if bad == 0 else 2
+
+
+if __name__ == '__main__':
+    sys.exit(main(sys.argv[1:], '/repo'))
